@@ -65,7 +65,7 @@ def gen(rng, depth, in_tr):
         if k < .45 and depth < 3:
             kids.append(gen(rng, depth + 1, in_tr or 'translate' in st))
         elif k < .8:
-            kids.append(rng.choice(['text', ' two  words ', '\n  line\n', 'x &amp; y', 'é']))
+            kids.append(rng.choice(['text', ' two  words ', '\n  line\n', 'x &amp; y', 'é', ' ', '\n   ', '\n']))
         else:
             kids.append('${v}')
     return El(rng.choice(['p', 'b', 'i']), kids, **st)
